@@ -628,6 +628,16 @@ func genConfusable(rng *rand.Rand, n int) (cases []string) {
 func genRandomCF(rng *rand.Rand, n int) (cases []string) {
 	initOrbits()
 	alpha := []rune{'k', 'K', 0x212A, 's', 'S', 0x17F, 'σ', 'ς', 'Σ', 'a', 'A', 'x', 'é', 'É', '€', 'θ', 'ϑ', 'ϴ', 'Θ', 'ǅ', 'ǆ', 'Ǆ', '😀', 'i', 'I', 'İ', 'ı'}
+	// runes of string literals of the source (harness/dict.go), and the code points that integer
+	// constants of the source denote
+	for k := 0; k < 6; k++ {
+		if t, ok := dictTok(rng); ok {
+			alpha = append(alpha, []rune(t)...)
+		}
+		if v, ok := dictInt(rng, 0x80, 0x10ffff); ok {
+			alpha = append(alpha, rune(v))
+		}
+	}
 	for i := 0; i < n; i++ {
 		hl := rng.IntN(9)
 		hay := make([]rune, hl)
@@ -734,6 +744,12 @@ var nonSpacesC13 = []string{"\u200b", "\u180e", "\ufeff", "\xc2", "\xa0", "\x85"
 func genST(rng *rand.Rand, n int) (cases []string) {
 	seps := []string{",", ", ", " ", "", ";", "ab", "aa", "€", "\n", " ", ",,", "\xff", "é"}
 	words := []string{"a", "b", "ab", "aa", "aaa", "x y", "é", "€", "世界", "😀", "\xff", "\xc3", "k", ",", "a,b", ""}
+	for k := 0; k < 3; k++ {
+		if t, ok := dictTok(rng); ok {
+			words = append(words, t)
+			seps = append(seps, t)
+		}
+	}
 	for i := 0; i < n; i++ {
 		sep := seps[rng.IntN(len(seps))]
 		var sb strings.Builder
